@@ -24,6 +24,7 @@ type Obligation struct {
 	Cover  bool // must be SAT (vacuity guard)
 	AllAxioms bool
 	Quick  bool // only a short attempt (reachability covers)
+	Must   bool // cover-ret: a success return (nil error): must be reachable on its own
 	Inputs []modelVar
 	// results
 	Status string // unsat / sat / unknown / timeout
@@ -212,7 +213,7 @@ func (e *Engine) contractFor(f *types.Func) *Contract {
 	if c, ok := e.db.Contracts[externKey(f)]; ok {
 		return c
 	}
-	if f.Pkg() != nil && e.db.CodecPkgs[f.Pkg().Path()] {
+	if _, loaded := e.funcDecls[f]; !loaded && f.Pkg() != nil && e.db.CodecPkgs[f.Pkg().Path()] {
 		// generated TL (de)serialisers: a method writes only its receiver and the buffer it is given
 		c := &Contract{Key: externKey(f), Extern: true, Trusted: true, NoPanic: true, HasMod: true, Loops: map[string][]*SpecExpr{}, Opts: map[string]string{}}
 		sig := f.Type().(*types.Signature)
